@@ -911,7 +911,13 @@ tpt_loop(tpt_p tpt) {
 			break;
 		case TP_EV_TIMER: /* Timer. */
 			tfd = TPDATA_TFD_GET(tp_udata->tpdata);
-			itm = read(tfd, &ev.data, sizeof(uint64_t));
+			itm = (int)read(tfd, &ev.data, sizeof(uint64_t));
+			if (((int)sizeof(uint64_t)) != itm) {
+				/* Nothing expired for us: other thread of pool
+				 * already serve this event (pvt timer wakes all
+				 * threads) or timer was disarmed meanwhile. */
+				continue;
+			}
 			if (0 != (TP_F_ONESHOT & tpev_flags)) { /* Onetime. */
 				close(tfd); /* No need to epoll_ctl(EPOLL_CTL_DEL). */
 				tp_udata->tpdata = 0;
